@@ -70,6 +70,10 @@ def make_ws(ws: Path, w):
     (ws / "xp").mkdir()
     for j in w["jobs"]:
         make_job(ws, j)
+    for l in w.get("links", []):
+        # as `deprecated list --fix` does: jobs/<new task>/<new id> -> (absolute) jobs/<old task>/<old id>
+        (ws / "jobs" / l["task"]).mkdir(exist_ok=True)
+        os.symlink(ws / "jobs" / l["to"][0] / l["to"][1], ws / "jobs" / l["task"] / l["hash"])
     for x in w["xps"]:
         xd = ws / "xp" / x["name"]
         xd.mkdir()
@@ -128,6 +132,35 @@ def run_filter(ws: Path, c):
     return dict(state=None if st is None else st.name, whole=one(c["text"]), atoms=[one(t) for t in c["atom_texts"]])
 
 
+def run_near(ws: Path, c):
+    """a string near the filter grammar: is it accepted (createFilter returns), and what does it answer on the job"""
+    ws.mkdir(parents=True)
+    d = make_job(ws, c["job"])
+    out = dict(accepted=False, build_exc=None, v=None, eval_exc=None)
+    try:
+        flt = createFilter(c["text"])
+        out["accepted"] = True
+    except Exception as e:  # noqa
+        out["build_exc"] = type(e).__name__
+        return out
+    try:
+        out["v"] = bool(flt(JobInformation(d.resolve(), scriptname(c["job"]["task"]))))
+    except Exception as e:  # noqa
+        out["eval_exc"] = type(e).__name__
+    return out
+
+
+def accepts(text):
+    """does createFilter take the text (diagnosis for the cleaning cases whose filter is near the grammar)"""
+    if not text:
+        return None
+    try:
+        createFilter(text)
+        return True
+    except Exception:  # noqa
+        return False
+
+
 def atom_verdicts(ws: Path, c):
     """each test of the filter on its own: does it build, and what it answers on every job (diagnosis only)"""
     out = []
@@ -169,6 +202,7 @@ def run_clean_on(ws: Path, c):
     out = diff(ws, before, jb)
     out["exc"] = excname(r)
     out["atoms"] = atoms
+    out["accepts"] = accepts(c["filter"])
     return out
 
 
@@ -241,7 +275,7 @@ def run_real(ws: Path, c):
     return out
 
 
-RUN = dict(filter=run_filter, clean=run_clean, orphans=run_orphans, real=run_real)
+RUN = dict(filter=run_filter, near=run_near, clean=run_clean, orphans=run_orphans, real=run_real)
 
 
 def main():
